@@ -158,6 +158,8 @@ def small_strings():
         for combo in itertools.product(SMALL, repeat=k):
             out.append("".join(combo))
     out += list(keyword.kwlist) + list(getattr(keyword, "softkwlist", [])) + dir(object) + MACHINERY
+    # names that are not in NFKC form (compatibility characters) and names only an identifier after normalisation
+    out += ["\ufb01le", "\uff2b", "\u00b5", "\u00aa", "a\u00b2", "\u2160x", "x\u0301", "\u0958", "\u212b", "\u1e9b\u0323", "\ufdfa", "a\u200db", "\u2460"]
     seen, res = set(), []
     for s in out:
         if s not in seen:
@@ -222,6 +224,22 @@ def behavioural_property(st, name):
             kb, _ = impl.do_call(mv, {name: 1})
             if ka != impl.ACCEPT or kb == impl.ACCEPT:
                 st.violation("unusable:variant-verdict:%s" % vlabel, "property name %r (%s): {name:'v'} -> %s, {name:1} -> %s" % (name, vlabel, ka, kb), {**case, "variant": vlabel})
+    # a class-level default that mentions the property: the attribute must not get in the way of the machinery's own
+    # class attributes (default, properties, ...) when the model is instantiated without a value
+    kd, md = impl.do_parse({**schema, "default": {name: "dflt"}})
+    if kd == impl.ELEMENT:
+        try:
+            inst = md()
+            got = getattr(inst, py, None)
+            ok = isinstance(inst, md) and got == "dflt"
+            inst2 = md()
+            ok = ok and isinstance(inst2, md) and getattr(inst2, py, None) == "dflt" and impl.do_call(md, {name: "w"})[0] == impl.ACCEPT and getattr(md({name: "w"}), py, None) == "w"
+        except Exception as exc:
+            ok, got = False, exc
+        if not ok:
+            st.violation("unusable:class-default", "property name %r (attribute %r) with the class default {name: 'dflt'}: instantiating without a value gives %r" % (name, py, got), {**case, "image": py})
+    else:
+        st.violation("unusable:parse-%s:class-default" % kd, "property name %r with a class default: %r" % (name, md), case)
     k3, _ = impl.do_call(model, {name: 1})
     if k3 == impl.ACCEPT:
         st.violation("unusable:property-schema-ignored", "property name %r: the property's own schema is not applied" % name, case)
@@ -447,6 +465,9 @@ def work(item):
         titles = [chr(c) for c in range(0x20, 0x100)] + ["A" + chr(c) + "b" for c in range(0x20, 0x100)] + [chr(c) + "Abc" for c in range(0x20, 0x100)]
         titles += sorted(MODULE_NAMES) + [n.lower() for n in sorted(MODULE_NAMES)] + list(keyword.kwlist) + ["1abc", "123", "a1", "foo bar", "fooBar", "FooBAR", "foo_bar", "Foo-Bar", "  x  ", "x.y", "Child", "child", "T", "_", "__init__", "Élan", "naïve", "日本", "ﬁle", "Foo_²", "Foo_1", "Foo_01", "Object_1", "object_2", "é_1", "1_1", "_1", "Foo__1", "A_1_2"]
         titles += ["T" + c for c in category_representatives()]
+        # suffix-shaped titles followed / interrupted by characters that regular-expression anchors are lenient about
+        for c in ("\n", "\r", "\t", " ", "\x0b", "\x0c", "\x1c", "\x85", "\u2028", "\u00a0", "\u0661", "\uff11"):
+            titles += ["Foo_1" + c, "Foo_" + c + "1", "Foo" + c + "_1", c + "Foo_1", "Foo_1" + c + c, "Foo_1_2" + c]
         for n, t in enumerate(titles):
             if n % item[2] != item[1]:
                 continue
